@@ -30,23 +30,49 @@ fn file_words(path: &str) -> Option<(u16, [u64; 7])> {
 }
 
 fn writer(path: &str) {
-    // Continue after whatever the previous incarnation left (possibly a half-written record).
-    let mut next = 1u64;
+    // Publication indices carry the generation the segment will have once the publication is
+    // complete (low 16 bits) and a wrap counter (high bits): a reader's answer then tells which
+    // generation it was taken at, which is what the documented 32767-collision exemption needs.
+    let mut epoch = 0u64;
+    let mut last_low = 0u64;
     if let Some((_, w)) = file_words(path) {
         for (k, x) in w.iter().enumerate().take(5) {
             if *x % 8 == k as u64 + 1 {
-                next = next.max(x / 8 + 2);
+                let idx = x / 8;
+                if (idx >> 16, idx & 0xffff) > (epoch, last_low) {
+                    epoch = idx >> 16;
+                    last_low = idx & 0xffff;
+                }
             }
         }
     }
     let mut wr = ShmWriter::new(Path::new(path)).expect("ShmWriter::new");
-    let mut i = next;
+    // An own read-only view of the segment (a plain load, so that most of the time is spent inside
+    // updates and kills land there often).
+    let f = std::fs::File::open(path).expect("open segment");
+    let view = unsafe {
+        use std::os::unix::io::AsRawFd;
+        libc::mmap(std::ptr::null_mut(), 72, libc::PROT_READ, libc::MAP_SHARED, f.as_raw_fd(), 0)
+    };
+    assert!(view != libc::MAP_FAILED);
+    let gen_ptr = unsafe { (view as *const u8).add(14) as *const u16 };
+    let mut n = 0u64;
     loop {
-        wr.write(&encode(i));
-        i += 1;
-        if i % 64 == 0 {
+        let g = unsafe { gen_ptr.read_volatile() };
+        let mut g2 = if g & 1 == 0 { g.wrapping_add(2) } else { g.wrapping_add(1) };
+        if g2 == 0 {
+            g2 = 2;
+        }
+        if (g2 as u64) <= last_low {
+            epoch += 1;
+        }
+        last_low = g2 as u64;
+        let i = (epoch << 16) | g2 as u64;
+        wr.write(&encode(i.max(1)));
+        n += 1;
+        if n % 64 == 0 {
             // Leave the segment quiescent for a moment now and then.
-            for _ in 0..(i % 1000) {
+            for _ in 0..(n % 1000) {
                 std::hint::spin_loop();
             }
         }
